@@ -57,5 +57,5 @@ HARNESSES += [
 ]
 ASSUMPTIONS = ['one heap operation from an arbitrary heap satisfying the representation invariant (induction step: covers histories of any length); heap sizes 1..6 (first two segments), deadline-heap arrangement: every permutation for n<=4, a sample for n=5, identity for the segment-boundary cases',
                'keys are arbitrary 64-bit values (ties included); allocation of heap segments never fails']
-LEVEL_TEXT = 'Timer heap: one real insert/remove/update from an ARBITRARY valid heap (induction step) of 1..6 timers - pre-state written directly with symbolic keys assumed to satisfy both heap orders, deadline-heap arrangement case-split over all permutations (n<=4) - explored path by path (cbmc --paths, every pointer concrete per path, keys symbolic): both heap orders, back-pointers, no timer lost, dth_min is the true minimum (the kernel timer is programmed for the earliest timer), re-program requested when a minimum changes. Firing arithmetic: _dispatch_timer_unote_compute_missed (count == passed interval boundaries, next target in the future) decided by cvc5 with bit-vectors as integers for times < 2^32 (thorough 2^48); _dispatch_timer_unote_configure: new settings replace old ones and stale pending data is always discarded.'
+LEVEL_TEXT = 'Timer heap: one real insert/remove/update from an ARBITRARY valid heap (induction step) of 1..6 timers - pre-state written directly with symbolic keys assumed to satisfy both heap orders, deadline-heap arrangement case-split over all permutations (n<=4) - explored path by path (cbmc --paths, every pointer concrete per path, keys symbolic): both heap orders, back-pointers, no timer lost, dth_min is the true minimum (the kernel timer is programmed for the earliest timer), re-program requested when a minimum changes. Firing arithmetic: _dispatch_timer_unote_compute_missed (count == passed interval boundaries, next target in the future) decided by cvc5 with bit-vectors as integers for times < 2^32 (thorough 2^48); _dispatch_timer_unote_configure: new settings replace old ones and stale pending data is always discarded. Root removals of 3-timer heaps (every arrangement) with one heap symbolic at a time are in the quick tier.'
 LEVEL_NOTE = 'Root-level sift-down of heaps with >= 3 timers needs minutes per query and is in the thorough tier only; _dispatch_timers_run / dispatch_after / epoll programming and the manager thread are not covered; compute_missed only below the stated bit widths.'
